@@ -503,6 +503,8 @@ func (e *SEnv) evalQuant(n *SQuant) Val {
 		}
 		dom := Select(e.r.mapDom(e.st, m), m.C[0])
 		guardOf = func() Term { return And(Ne(m.C[0], Zero), Select(dom, bv)) }
+	} else if n.Lo == nil && n.Hi == nil {
+		guardOf = func() Term { return True }
 	} else {
 		lo, hi := e.intOf(e.eval(n.Lo)), e.intOf(e.eval(n.Hi))
 		guardOf = func() Term { return And(Le(lo, bv), Lt(bv, hi)) }
@@ -713,6 +715,12 @@ func (e *SEnv) evalCall(n *SCall) Val {
 			return specInt(Fresh("nevercalled", SInt))
 		}
 		return rec.rets[ri]
+	case "flt", "feq", "fle": // the Go relations < == <= on float values (uninterpreted; see the float axioms)
+		a, b := e.eval(n.Args[0]), e.eval(n.Args[1])
+		if len(a.C) != 1 || len(b.C) != 1 {
+			sfail("%s: float values expected", n.Fun)
+		}
+		return specBool(uf(n.Fun, SBool, a.C[0], b.C[0]))
 	case "entrymem": // entrymem(): everything that existed at function entry still has its entry content
 		if e.old == nil {
 			sfail("entrymem() needs a two-state context")
